@@ -117,6 +117,54 @@ Proof.
   destruct (mem_key k stale); destruct (str_eqb k a); reflexivity.
 Qed.
 
+(* ------------------------------------------------------------------ path_key is idempotent *)
+Lemma list_ind2 : forall (A : Type) (P : list A -> Prop),
+  P [] -> (forall a, P [a]) -> (forall a b l, P l -> P (a :: b :: l)) -> forall l, P l.
+Proof.
+  intros A P H0 H1 H2 l.
+  assert (H : P l /\ forall a, P (a :: l)).
+  { induction l as [|x l [IH1 IH2]]; split; auto. }
+  apply H.
+Qed.
+
+Lemma strip_all_In : forall p c, In c (strip_all p) -> In c p.
+Proof.
+  intro p. induction p as [|a|a b l IH] using list_ind2; intros c H; auto.
+  cbn [strip_all] in H. destruct (N.eqb a 46 && N.eqb b 47); auto.
+  right. right. apply IH. assumption.
+Qed.
+
+Lemma strip_all_idem : forall p, strip_all (strip_all p) = strip_all p.
+Proof.
+  intro p. induction p as [|a|a b l IH] using list_ind2; auto.
+  cbn [strip_all]. destruct (N.eqb a 46 && N.eqb b 47) eqn:E; auto.
+  cbn [strip_all]. rewrite E. reflexivity.
+Qed.
+
+Lemma norm_char_idem : forall c, norm_char (norm_char c) = norm_char c.
+Proof. intro c. unfold norm_char. destruct (N.eqb c 92) eqn:E; cbn; auto. rewrite E. reflexivity. Qed.
+
+Lemma map_norm_char_fixed : forall q, (forall c, In c q -> norm_char c = c) -> map norm_char q = q.
+Proof.
+  induction q as [|c q IH]; intro H; cbn; auto.
+  rewrite H by (left; reflexivity). rewrite IH; auto. intros c' HI. apply H. right. assumption.
+Qed.
+
+Lemma norm_key_idem : forall p, norm_key (norm_key p) = norm_key p.
+Proof.
+  intro p. unfold norm_key.
+  set (s := strip_all (map norm_char p)).
+  assert (M : map norm_char s = s).
+  { apply map_norm_char_fixed. intros c HI. subst s. apply strip_all_In in HI.
+    apply in_map_iff in HI. destruct HI as [c0 [E _]]. subst c. apply norm_char_idem. }
+  assert (I : strip_all s = s) by (subst s; apply strip_all_idem).
+  destruct s as [|x t]; [reflexivity|].
+  cbn [dot_if_empty]. rewrite M, I. reflexivity.
+Qed.
+
+Lemma key_of_stable : forall r, stable_key (key_of r).
+Proof. intro r. unfold stable_key, key_of. apply norm_key_idem. Qed.
+
 (* ------------------------------------------------------------------ re-keying on load *)
 Lemma keys_rekey : forall b, keys (rekey b) = map norm_key (keys b).
 Proof. intro b. unfold keys, rekey. rewrite !map_map. reflexivity. Qed.
@@ -138,6 +186,18 @@ Qed.
 Definition stable_bl (b : baseline) : Prop := forall k, In k (keys b) -> stable_key k.
 Definition ostable (ob : option baseline) : Prop := match ob with Some b => stable_bl b | None => True end.
 Definition stable_results (rs : list result) : Prop := forall r, In r rs -> stable_key (key_of r).
+
+Lemma stable_results_all : forall rs, stable_results rs.
+Proof. intros rs r _. apply key_of_stable. Qed.
+
+Lemma rekey_is_stable : forall b, stable_bl (rekey b).
+Proof.
+  intros b k HK. rewrite keys_rekey in HK. apply in_map_iff in HK.
+  destruct HK as [k0 [E _]]. subst k. unfold stable_key. apply norm_key_idem.
+Qed.
+
+Lemma view_is_stable : forall ob, ostable (view ob).
+Proof. intros [b|]; cbn; auto. apply rekey_is_stable. Qed.
 
 Lemma view_stable : forall ob, ostable ob -> view ob = ob.
 Proof. intros [b|] H; cbn; auto. rewrite rekey_stable; auto. Qed.
